@@ -91,7 +91,8 @@ def decAct : List String → Option Act
 
 structure DState where
   srv : Srv
-  bot : Bot
+  bb : BBot
+  ob : Option Str := none
 
 def excStr : Exc → String
   | .none => "ok"
@@ -101,47 +102,61 @@ def excStr : Exc → String
 def encMsgs (ms : List Msg) : String :=
   if ms.isEmpty then "-" else ";".intercalate (ms.map fun m => enc m.cmd ++ ":" ++ encList m.args)
 
+def dumpBB (bb : BBot) : String := dumpBot bb.bot ++ " B=" ++ encSet bb.batches.eraseDups
+
+def encBEv : BEv → String
+  | .plain e => encEv e
+  | .tagged ref m => "T" ++ enc ref ++ ":" ++ enc m.pfx ++ ":" ++ enc m.cmd ++ ":" ++ encList m.args
+
 /-- feed the events one by one, collecting the bot dump (and what the bot sends) after each -/
-def feedDump (b : Bot) : List Ev → Bot × List String × List Msg
-  | [] => (b, [], [])
+def feedDump (bb : BBot) : List BEv → BBot × List String × List Msg
+  | [] => (bb, [], [])
   | e :: es =>
     let out := match e with
-      | .msg m => b.out m
-      | .reset => []
-    let b1 := b.recv e
+      | .plain (.msg m) => bb.bot.out m
+      | .tagged _ m => bb.bot.out m
+      | .plain .reset => []
+    let b1 := bb.recv e
     let r := feedDump b1 es
-    (r.1, (dumpBot b1 ++ " O=" ++ encMsgs out) :: r.2.1, out ++ r.2.2)
+    (r.1, (dumpBB b1 ++ " O=" ++ encMsgs out) :: r.2.1, out ++ r.2.2)
 
 def defaultCfg : Cfg :=
   { server := "irc.srv".toList, multiPrefix := true, uhnames := false, extJoin := false, chghost := true,
-    whox := true, botNick := "test".toList, botIdent := "limnoria".toList, botHost := "bot.host".toList,
+    whox := true, batch := true, botNick := "test".toList, botIdent := "limnoria".toList, botHost := "bot.host".toList,
     namesPerLine := 3, chantypes := "#&".toList, channellen := "50".toList }
 
+def runBAct (st : DState) (a : BAct) : DState × String :=
+  let r := bstep st.srv st.ob a
+  let fd := feedDump st.bb r.2.2
+  let s1 := r.1.enqueue fd.2.2
+  (⟨s1, fd.1, r.2.1⟩,
+    (if r.2.2.isEmpty then "-" else "|".intercalate (r.2.2.map encBEv)) ++ "\t" ++
+    (if fd.2.1.isEmpty then "-" else "|".intercalate fd.2.1) ++ "\t" ++ dumpSrv s1 ++
+    " OB=" ++ encOpt r.2.1)
+
 def step (st : DState) : List String → DState × String
-  | ["init", server, mp, uh, ej, ch, wx, n, i, h, npl, ct, cl] =>
-    match dec server, decBool mp, decBool uh, decBool ej, decBool ch, decBool wx, dec n, dec i, dec h, npl.toNat?, dec ct, dec cl with
-    | some server, some mp, some uh, some ej, some ch, some wx, some n, some i, some h, some npl, some ct, some cl =>
-      let cfg : Cfg := ⟨server, mp, uh, ej, ch, wx, n, i, h, npl, ct, cl⟩
-      if cfg.valid then (⟨Srv.init cfg, Bot.init n i⟩, "ok " ++ dumpBot (Bot.init n i) ++ "\t" ++ dumpSrv (Srv.init cfg))
+  | ["init", server, mp, uh, ej, ch, wx, bt, n, i, h, npl, ct, cl] =>
+    match dec server, decBool mp, decBool uh, decBool ej, decBool ch, decBool wx, decBool bt, dec n, dec i, dec h, npl.toNat?, dec ct, dec cl with
+    | some server, some mp, some uh, some ej, some ch, some wx, some bt, some n, some i, some h, some npl, some ct, some cl =>
+      let cfg : Cfg := ⟨server, mp, uh, ej, ch, wx, bt, n, i, h, npl, ct, cl⟩
+      if cfg.valid then (⟨Srv.init cfg, ⟨Bot.init n i, []⟩, none⟩, "ok " ++ dumpBB ⟨Bot.init n i, []⟩ ++ "\t" ++ dumpSrv (Srv.init cfg) ++ " OB=~")
       else (st, "bad-cfg")
-    | _, _, _, _, _, _, _, _, _, _, _, _ => (st, "bad-op")
+    | _, _, _, _, _, _, _, _, _, _, _, _, _ => (st, "bad-op")
+  | ["act", "batchopen", ref, ty, args] =>
+    match dec ref, dec ty, decList args with
+    | some ref, some ty, some args => runBAct st (.batchOpen ref ty args)
+    | _, _, _ => (st, "bad-op")
+  | ["act", "batchclose"] => runBAct st .batchClose
   | "act" :: rest =>
     match decAct rest with
     | none => (st, "bad-op")
-    | some a =>
-      let r := st.srv.step a
-      let fd := feedDump st.bot r.2
-      let s1 := r.1.enqueue fd.2.2
-      (⟨s1, fd.1⟩,
-        (if r.2.isEmpty then "-" else "|".intercalate (r.2.map encEv)) ++ "\t" ++
-        (if fd.2.1.isEmpty then "-" else "|".intercalate fd.2.1) ++ "\t" ++ dumpSrv s1)
-  | ["msg", p, c, a] =>
-    match dec p, dec c, decList a with
-    | some p, some c, some a =>
-      let r := st.bot.feed ⟨p, c, a⟩
-      (⟨st.srv, r.1⟩, excStr r.2 ++ "\t" ++ dumpBot r.1 ++ " O=" ++ encMsgs (st.bot.out ⟨p, c, a⟩))
-    | _, _, _ => (st, "bad-op")
-  | ["reset"] => (⟨st.srv, st.bot.reset⟩, dumpBot st.bot.reset)
+    | some a => runBAct st (.act a)
+  | ["msg", p, c, a, t] =>
+    match dec p, dec c, decList a, decOpt t with
+    | some p, some c, some a, some t =>
+      let r := st.bb.feed t ⟨p, c, a⟩
+      (⟨st.srv, r.1, st.ob⟩, excStr r.2 ++ "\t" ++ dumpBB r.1 ++ " O=" ++ encMsgs (st.bb.bot.out ⟨p, c, a⟩))
+    | _, _, _, _ => (st, "bad-op")
   | ["lower", s] => (st, match dec s with | some s => enc (lower s) | none => "bad-op")
   | ["ishm", s] => (st, match dec s with
       | some s => (if isUserHostmask s then "1" else "0") ++ "\t" ++
@@ -155,5 +170,5 @@ def step (st : DState) : List String → DState × String
   | _ => (st, "bad-op")
 
 def handler : Driver.Handler :=
-  { σ := DState, init := ⟨Srv.init defaultCfg, Bot.init defaultCfg.botNick defaultCfg.botIdent⟩, step := step }
+  { σ := DState, init := ⟨Srv.init defaultCfg, ⟨Bot.init defaultCfg.botNick defaultCfg.botIdent, []⟩, none⟩, step := step }
 end C10
